@@ -10,11 +10,19 @@ class MatrixOfCellIdentifiersExpressionTokenTranslator(AbstractTranslator):
         from excel2pycl.src.translators.matrix_of_cell_identifiers_token_translator import \
             MatrixOfCellIdentifiersTokenTranslator
 
-        left, right = token.operands
+        # the grammar admits one area, two areas joined with & and longer chains (the operands nest to the right)
+        operands, rest = [], token.operands
+        while isinstance(rest, tuple):
+            operands.append(rest[0])
+            rest = rest[1]
+        operands.append(rest)
 
-        list1 = MatrixOfCellIdentifiersTokenTranslator.translate(left, excel, context)
-        list2 = MatrixOfCellIdentifiersTokenTranslator.translate(right, excel, context)
+        code = MatrixOfCellIdentifiersTokenTranslator.translate(operands[0], excel, context)
+        if len(operands) == 1:
+            return code
 
-        return context.set_sub_cell(
-            token.in_cell, f'self._concat_arrays_values(self._flatten_list({list1}), self._flatten_list({list2}))'
-        )
+        for operand in operands[1:]:
+            next_list = MatrixOfCellIdentifiersTokenTranslator.translate(operand, excel, context)
+            code = f'self._concat_arrays_values(self._flatten_list({code}), self._flatten_list({next_list}))'
+
+        return context.set_sub_cell(token.in_cell, code)
